@@ -27,15 +27,22 @@ package main
 //     the other created afterwards; or interleaved).  Each instance is compared with its solo run in a
 //     FRESH CHILD PROCESS (runner C20solo), because a memo table the reset hook does not know about
 //     survives any in-process "solo" run.
+//     TYPE-SPECIALISED part (kinds typed_bridge_spec_*, c20TEqSpecs): the expression holds a construct
+//     that expr-lang compiles to a type-specific form (== / != over two ints or two strings, x in
+//     [literals]); the first instance feeds ints (or strings) and runs before the second, which feeds
+//     float64 / another type, is created: the cached program FAILS at run time on every row of the
+//     second instance, whose results must still be those of a fresh process.
 
 import (
 	"fmt"
+	"os"
 	"reflect"
 	"sort"
 	"strconv"
 	"strings"
 	"time"
 
+	"github.com/expr-lang/expr/builtin"
 	"github.com/rulego/streamsql"
 	"github.com/rulego/streamsql/functions"
 )
@@ -377,6 +384,17 @@ func c20TRows(seed uint64, inst, n int, typ string, cols []string) []map[string]
 				r[c] = rng.Pick(c20TWords)
 			case "flt":
 				r[c] = float64(rng.Intn(160)+1) / 4
+			// small domains of the type-specialised family (c20TEqSpecs): the literals 1..4 / 'ab', 'q', '1', '2'
+			// of the expressions both occur and are missed
+			case "sint":
+				r[c] = rng.Intn(5) + 1
+			case "sflt": // what a JSON decoder makes of small integers, and a few halves
+				r[c] = float64(rng.Intn(5) + 1)
+				if rng.Intn(5) == 0 {
+					r[c] = float64(rng.Intn(10)+1) / 2
+				}
+			case "sstr":
+				r[c] = rng.Pick([]string{"ab", "q", "1", "2", "Zz", "3"})
 			default:
 				r[c] = rng.Intn(40) + 1
 			}
@@ -572,6 +590,204 @@ func c20TSpecs(rng *RNG, tier string) []c20TSpec {
 	return ps
 }
 
+// TYPE-SPECIALISED constructs (kinds typed_bridge_spec_<site>_<typeA>_<typeB>): expr-lang compiles
+// "a == b" / "a != b" over two ints to an int-only opcode (two strings: a string-only opcode) and
+// "x in [int literals]" over an int x to a lookup in a map[int]struct{}; the static types are those of
+// the VALUES of the row the text is first compiled against, and the compiled program is cached
+// process-wide by the text alone.  Instance A feeds ints (or strings) and runs completely BEFORE instance
+// B is created; B feeds another type of the same columns (float64 = what a JSON decoder produces,
+// strings, ints).  A program specialised on A's rows fails at run time on B's rows; what B then reports
+// must be what it reports in a fresh process.
+var c20TEqGenerated, c20TEqAccepted int
+
+func c20TEqSpecs(rng *RNG, tier string, serial0 int) []c20TSpec {
+	serial := serial0
+	fresh := func() []string {
+		serial++
+		t := fmt.Sprintf("%c%d", 'f'+rune(rng.Intn(15)), serial)
+		return []string{t + "p", t + "q", t + "r"}
+	}
+	lit := func(typ string) string {
+		if typ == "sstr" {
+			return "'" + rng.Pick([]string{"ab", "q", "1", "2"}) + "'"
+		}
+		return strconv.Itoa(rng.Intn(4) + 1)
+	}
+	// a condition whose compiled form depends on the static type of the column(s): typ = type of A's rows
+	cond := func(c []string, typ string) string {
+		l1, l2, l3 := lit(typ), lit(typ), lit(typ)
+		switch rng.Intn(9) {
+		case 0:
+			return c[0] + " != " + l1
+		case 1:
+			return c[0] + " in [" + l1 + ", " + l2 + "]"
+		case 2:
+			return c[0] + " in [" + l1 + ", " + l2 + ", " + l3 + "]"
+		case 3:
+			return c[0] + " == " + c[1]
+		case 4:
+			return c[0] + " != " + c[1]
+		case 5:
+			return l1 + " == " + c[0]
+		case 6:
+			return c[0] + " == " + l1 + " || " + c[1] + " == " + l2
+		default:
+			return c[0] + " == " + l1
+		}
+	}
+	// registered scalar functions that share their name with an expr-lang builtin; quick: concat (F74) and
+	// two others
+	all := functions.ListAll()
+	var shadowed []string
+	for _, b := range builtin.Builtins {
+		if f, ok := all[b.Name]; ok && f.GetMinArgs() >= 1 && f.GetType() != functions.TypeAggregation &&
+			f.GetType() != functions.TypeAnalytical && f.GetType() != functions.TypeWindow {
+			shadowed = append(shadowed, b.Name)
+		}
+	}
+	sort.Strings(shadowed)
+	if tier != "thorough" && len(shadowed) > 3 {
+		pick := map[string]bool{"concat": all["concat"] != nil}
+		for len(pick) < 3 {
+			pick[rng.Pick(shadowed)] = true
+		}
+		var keep []string
+		for _, f := range shadowed {
+			if pick[f] {
+				keep = append(keep, f)
+			}
+		}
+		shadowed = keep
+	}
+	var ps []c20TSpec
+	add := func(site string, mk func(c []string, typ string) (string, bool, int)) {
+		typs := [][2]string{{"sint", "sflt"}}
+		if site != "shadowed_builtin_call" {
+			switch rng.Intn(4) {
+			case 0:
+				typs = append(typs, [2]string{"sint", "sstr"})
+			case 1:
+				typs = append(typs, [2]string{"sstr", "sint"})
+			case 2:
+				typs = append(typs, [2]string{"sstr", "sflt"})
+			}
+		}
+		if tier == "thorough" {
+			typs = [][2]string{{"sint", "sflt"}, {"sint", "sstr"}, {"sstr", "sint"}, {"sstr", "sflt"}, {"sflt", "sint"}}
+		}
+		for _, t := range typs {
+			c := fresh()
+			sql, syncMode, win := mk(c, t[0])
+			c20TEqGenerated++
+			if !c20TAccepts(sql) {
+				if os.Getenv("VERIF_DEBUG") != "" {
+					fmt.Fprintln(os.Stderr, "typed_bridge_spec rejected:", sql)
+				}
+				continue
+			}
+			c20TEqAccepted++
+			n := 6 + rng.Intn(3)
+			if !syncMode && win > 1 {
+				n = win*2 + rng.Intn(win)
+			}
+			ps = append(ps, c20TSpec{"typed_bridge_spec_" + site + "_" + t[0] + "_" + t[1], sql, sql, t[0], t[1], c, syncMode, win, n})
+		}
+	}
+	reps := 1
+	if tier == "thorough" {
+		reps = 4
+	}
+	for r := 0; r < reps; r++ {
+		// argument (with an operator) of a scalar function in a select item
+		add("function_argument", func(c []string, typ string) (string, bool, int) {
+			return "SELECT id, case_when(" + cond(c, typ) + ", 'one', 'other') AS r FROM stream", true, 1
+		})
+		add("function_argument", func(c []string, typ string) (string, bool, int) {
+			t := rng.Pick([]string{"case_when(%s, " + c[1] + ", 0)", "coalesce(%s, 'z')", "if_null(%s, 'z')", "to_json(%s)",
+				"is_bool(%s)", "upper(case_when(%s, 'y', 'n'))", "greatest(case_when(%s, 7, 3), 5)"})
+			return "SELECT id, " + strings.ReplaceAll(t, "%s", cond(c, typ)) + " AS r, " + c[0] + " AS o FROM stream", true, 1
+		})
+		// a call of a registered scalar function whose NAME is also an expr-lang builtin (concat, round, split,
+		// upper, ...; computed from the two registries): the compiled program binds the name to the StreamSQL
+		// function, the per-row env path the bridge retries on binds it to whatever expr-lang resolves there
+		for _, f := range shadowed {
+			f := f
+			add("shadowed_builtin_call", func(c []string, typ string) (string, bool, int) {
+				fn := all[f]
+				first, more := "case_when("+cond(c, typ)+", 'a,b', ' c a ')", "'a'"
+				if fn.GetType() == functions.TypeMath {
+					first, more = "case_when("+cond(c, typ)+", 7, 5)", "3"
+				}
+				if f == "concat" && rng.Bool() {
+					first = cond(c, typ)
+				}
+				call := f + "(" + first
+				k := fn.GetMinArgs()
+				if f == "concat" {
+					k = 2
+				}
+				for i := 1; i < k; i++ {
+					call += ", " + more
+				}
+				return "SELECT id, " + call + ") AS r FROM stream", true, 1
+			})
+		}
+		// argument of an analytic function
+		add("analytic_argument", func(c []string, typ string) (string, bool, int) {
+			f := rng.Pick([]string{"lag", "latest", "had_changed", "acc_count"})
+			return "SELECT id, " + f + "(" + cond(c, typ) + ") AS r FROM stream", true, 1
+		})
+		add("analytic_argument", func(c []string, typ string) (string, bool, int) {
+			f := rng.Pick([]string{"lag", "latest", "acc_sum", "acc_max"})
+			return "SELECT id, " + f + "(case_when(" + cond(c, typ) + ", 1, 0)) AS r FROM stream", true, 1
+		})
+		// an analytic call inside an expression (wrapper text with placeholders)
+		add("analytic_wrapper", func(c []string, typ string) (string, bool, int) {
+			f := rng.Pick([]string{"lag", "latest", "acc_max"})
+			if rng.Bool() {
+				return "SELECT id, case_when(" + f + "(" + c[0] + ") == " + lit(typ) + ", 'one', 'other') AS r FROM stream", true, 1
+			}
+			return "SELECT id, " + f + "(" + c[0] + ") == " + c[1] + " AS r FROM stream", true, 1
+		})
+		// inner expression of an aggregate in a counting window
+		add("window_aggregate_expression", func(c []string, typ string) (string, bool, int) {
+			w := 2 + rng.Intn(2)
+			g := rng.Pick([]string{"sum", "max", "min", "avg", "last_value", "collect"})
+			return "SELECT " + g + "(case_when(" + cond(c, typ) + ", 1, 0)) AS r, count(*) AS c FROM stream GROUP BY CountingWindow(" + strconv.Itoa(w) + ")", false, w
+		})
+		add("window_aggregate_expression", func(c []string, typ string) (string, bool, int) {
+			g := rng.Pick([]string{"collect", "last_value", "first_value", "count"})
+			return "SELECT " + g + "(" + cond(c, typ) + ") AS r, count(*) AS c FROM stream GROUP BY CountingWindow(2)", false, 2
+		})
+		// function-expression group key
+		add("group_key_expression", func(c []string, typ string) (string, bool, int) {
+			// (the parser accepts one-argument calls as group keys)
+			e := strings.ReplaceAll(rng.Pick([]string{"to_json(%s)", "upper(to_json(%s))", "md5(to_json(%s))"}), "%s", cond(c, typ))
+			return "SELECT " + e + " AS g, count(*) AS c, last_value(id) AS lid FROM stream GROUP BY " + e + ", CountingWindow(1)", false, 1
+		})
+		// post-aggregation expression
+		add("post_aggregation", func(c []string, typ string) (string, bool, int) {
+			g := rng.Pick([]string{"first_value", "last_value", "max", "min"})
+			return "SELECT case_when(" + g + "(" + c[0] + ") == " + lit(typ) + ", 'one', 'other') AS r, count(*) AS c FROM stream GROUP BY CountingWindow(2)", false, 2
+		})
+		// WHERE through a function call
+		add("where_function", func(c []string, typ string) (string, bool, int) {
+			return "SELECT id, " + c[0] + " AS o FROM stream WHERE case_when(" + cond(c, typ) + ", 1, 0) == 1", true, 1
+		})
+		// controls: CASE expression, plain projection and plain WHERE (compiled per stream)
+		add("case_condition", func(c []string, typ string) (string, bool, int) {
+			return "SELECT id, CASE WHEN " + cond(c, typ) + " THEN 1 ELSE 0 END AS r FROM stream", true, 1
+		})
+		add("projection", func(c []string, typ string) (string, bool, int) {
+			if rng.Bool() {
+				return "SELECT id, " + c[0] + " AS o FROM stream WHERE " + cond(c, typ), true, 1
+			}
+			return "SELECT id, " + cond(c, typ) + " AS r FROM stream", true, 1
+		})
+	}
+	return ps
+}
+
 type c20TFuture struct {
 	s   string
 	err error
@@ -579,6 +795,9 @@ type c20TFuture struct {
 
 func c20RunTypedBridgeFamily(rng *RNG, tier string, o *Out) error {
 	specs := c20TSpecs(rng, tier)
+	specs = append(specs, c20TEqSpecs(rng, tier, 1000)...)
+	o.Dist["P_typed_bridge_spec_generated"] = c20TEqGenerated
+	o.Dist["P_typed_bridge_spec_accepted"] = c20TEqAccepted
 	type job struct {
 		p      c20TSpec
 		mode   string
@@ -594,11 +813,12 @@ func c20RunTypedBridgeFamily(rng *RNG, tier string, o *Out) error {
 		if p.TypB == "str" && p.TypA != "str" {
 			first, second = second, first
 		}
+		spec := strings.HasPrefix(p.Kind, "typed_bridge_spec_") // A (ints or strings) fills the cache first, always
 		modes := []string{first}
-		if tier == "thorough" || rng.Intn(3) == 0 {
+		if tier == "thorough" || rng.Intn(3) == 0 && !spec {
 			modes = append(modes, second)
 		}
-		if tier == "thorough" || rng.Intn(3) == 0 {
+		if tier == "thorough" || rng.Intn(3) == 0 && !spec || spec && rng.Intn(6) == 0 {
 			modes = append(modes, "interleaved_both_created_up_front")
 		}
 		for _, m := range modes {
